@@ -1,7 +1,7 @@
 """C18 - truncate changes the capacity and nothing else (unsync::Arena)."""
 import re
 from engine import rule, Ob, key_of, EXPLAIN, ASSUME
-from sym import Lin, add, sub, const, tag, show, is_const, as_lin, implied_facts, struct_get
+from sym import _walk_terms, Lin, add, sub, const, tag, show, is_const, as_lin, implied_facts, struct_get
 from util import *
 from order import Order, term_eq
 
@@ -103,20 +103,26 @@ def t4(ctx):
     caps = [e for e in res.log if is_heap_store(e) and e["base"] == SELF and e["path"] == ("cap",)]
     ok = len(caps) >= 1 and all(e["value"] == SZ for e in caps)
     oks = [r for r in res.log if r["kind"] == "ret0" and not r["chain"] and tag(r["value"]) == "variant" and r["value"][2] == "Ok"]
-    # every Ok return is either dominated by a cap store or lies on the Mmap (read-only) arm with no store at all
+    # every way to an Ok return passes a cap store, except on the Mmap (read-only) arm, which stores nothing at all
+    import dnf as D
     good = True
+    stop = frozenset(e["bb"] for e in caps if not e["chain"])
+
+    def arm_of(fs):
+        for f in fs:
+            if f[0] == "discr" and "backend" in show(f[1]) and f[2][0] == "eq":
+                return ctx.facts.variant_by_discr("memory::MemoryBackend", f[2][1])
+        return None
     for r in oks:
-        dom = [e for e in caps if b.dominates(e["bb"], r["bb"])]
-        if dom:
+        if r["bb"] in stop:
+            continue        # the store is in the returning block itself
+        around = D.block_dnf(ev, res, b, r["bb"], stop=stop)
+        if around is None:
+            good = False
             continue
-        fs = ctx.facts_of(ev, r)
-        arm = [f for f in fs if f[0] == "discr" and "backend" in show(f[1])]
-        vname = None
-        for f in arm:
-            if f[2][0] == "eq":
-                vname = ctx.facts.variant_by_discr("memory::MemoryBackend", f[2][1])
-        stores_before = [e for e in res.log if (is_heap_store(e) or is_raw_write(e)) and b.dominates(e["chain"][0][1] if e["chain"] else e["bb"], r["bb"])]
-        good = good and vname == "Mmap" and not stores_before
+        good = good and all(arm_of(c) == "Mmap" for c in around)
+    on_map_arm = [e for e in res.log if (is_heap_store(e) or is_raw_write(e)) and arm_of(ctx.facts_of(ev, e)) == "Mmap"]
+    good = good and not on_map_arm
     yield Ob(key_of("C18-T4", b.path, "cap-updated"), ok and good, "cap := size before every Ok except the untouched read-only map arm", b.loc())
     ptrs = [e for e in res.log if is_heap_store(e) and e["base"] == SELF and e["path"] == ("ptr",)]
     n_arms = 3 if ctx.memmap else 1
@@ -216,7 +222,7 @@ def t9(ctx):
                                (len(between), [ctx.loc(r) for r in between][:3])), ctx.loc(drops[0]) if drops else b.loc())
 
 
-@rule("C18-T10", "C18", 1, "a copy-on-write arena (Options::map_copy) keeps its private pages: truncate must re-create the mapping in the same mode (or refuse), not re-map the file "
+@rule("C18-T10", "C18", 6, "a copy-on-write arena (Options::map_copy) keeps its private pages: truncate must re-create the mapping in the same mode (or refuse), not re-map the file "
       "shared - that drops every private modification (the header included: allocated() changes) and makes later writes go to the file", configs=MEMCFG)
 def t10(ctx):
     b = ctx.facts.one(r"^memory::Memory::<R, PR, H>::truncate$")
@@ -233,6 +239,32 @@ def t10(ctx):
     remaps = [e for e in res.log if e["kind"] == "call" and not e["chain"] and e["callee"].endswith("memory::mmap_mut")]
     consulted = bool(remaps) and all(any(f[0] == "bool" and re.search(r"copy|cow|private|mode", show(f[1])) for f in ctx.facts_of(ev, e)) for e in remaps)
     ok = (remembers and consulted) or not shared_remap
+    # ... and what it consults is the truth: each open wrapper hands map_mut_in the flag that describes the mapping function it hands over, and map_mut_in stores
+    # that parameter (nothing else) in the backend
+    for w in ctx.facts.find(r"^memory::Memory::<R, PR, H>::map_(mut|copy)(_with_path_builder)?$"):
+        evw, resw = ctx.eval(w, no_inline=(r"::map_mut_in$",))
+        calls = [e for e in resw.log if e["kind"] == "call" and e["callee"].endswith("::map_mut_in")]
+        okw, got = len(calls) == 1, None
+        if okw:
+            fns = [x for x in calls[0]["args"] if tag(x) == "fn"]
+            flags = [x for x in calls[0]["args"] if is_const(x)]
+            okw = len(fns) == 1 and len(flags) == 1
+            if okw:
+                got = (show(flags[0]), fns[0][1])
+                okw = (flags[0] == const(1)) == fns[0][1].endswith("memory::mmap_copy")
+        yield Ob(key_of("C18-T10", w.path, "mode-flag-matches-mapping-function"), okw, "%s hands map_mut_in (copy flag, mapping function) = %s" % (w.name, got), w.loc())
+    idx = fields.index("copy") if "copy" in fields else None
+    stored = []
+    for c in ctx.facts.find(r"^memory::Memory::<R, PR, H>::map_mut_in(::\{closure#0\})?$"):
+        evc, resc = ctx.eval(c)
+        for r in resc.log:
+            if r["kind"] == "ret0" and not r["chain"]:
+                def visit(t):
+                    if tag(t) == "variant" and str(t[1]).endswith("MemoryBackend") and t[2] == "MmapMut" and idx is not None and len(t[3]) > idx:
+                        stored.append(t[3][idx])
+                _walk_terms(r["value"], visit)
+    okc = bool(stored) and all(x in (("upvar", "copy"), ("param", 2, "copy")) or show(x) in ("^copy", "copy") for x in stored)
+    yield Ob(key_of("C18-T10", b.path.replace("truncate", "map_mut_in"), "mode-flag-stored"), okc, "MmapMut{copy} is built from map_mut_in's `copy` parameter: %s" % sorted(set(show(x) for x in stored)), b.loc())
     yield Ob(key_of("C18-T10", b.path, "copy-on-write-mode-kept"), ok,
              "MemoryBackend::MmapMut fields %s %s; truncate %s" % (fields, "record the mapping mode" if remembers else "do not record whether the mapping is private (map_copy) or shared (map_mut)",
                                                                "re-maps with mmap_mut (shared)" if shared_remap else "does not re-map shared"), b.loc())
